@@ -3,7 +3,8 @@
 and runs every property's rules on it. Any finding that the unchanged tree does not have is a false alarm of the
 machinery. Usage: sweep_controls.py [name-substring]"""
 import json, os, subprocess, sys, tempfile, shutil, glob
-V="/verif"; TOOL=V+"/tool/avfslint"
+import os as _os
+V="/verif"; TOOL=_os.environ.get("AVFSLINT", V+"/tool/avfslint")
 flt = sys.argv[1] if len(sys.argv)>1 else ""
 props = sorted({l.split()[0].split(".")[0] for l in subprocess.run([TOOL,"-list"],capture_output=True,text=True).stdout.splitlines()})
 def findings(repo):
